@@ -5,6 +5,11 @@ import (
 	"crypto/x509/pkix"
 	"encoding/asn1"
 	"encoding/json"
+	"fmt"
+	"github.com/wokdav/gopki/generator/db"
+	"github.com/wokdav/gopki/generator/db/filesystem"
+	"io/fs"
+	"testing/fstest"
 
 	"github.com/wokdav/gopki/generator/cert"
 	"github.com/wokdav/gopki/generator/config"
@@ -226,7 +231,34 @@ func execValidate(raw json.RawMessage) any {
 	ok := config.Validate(config.CertificateProfile{Name: "p", SubjectAttributes: psa},
 		config.CertificateContent{Alias: "a", Subject: subj})
 	after := rdnSnapshot(subj)
-	return J{"attrs": view, "subjectTypes": types, "ok": ok, "subjectUnchanged": before == after}
+	// the same question through the database layer (AddProfile / PutConfig / validateAndMerge): the profile as
+	// the database hands it out must constrain the subject exactly as the profile that was put in
+	viaDb := func() (res any) {
+		// sampled: every 37th case, and every case with an empty attribute list or a subject of at most one attribute
+		if !(caseNo%37 == 0 || len(in.Attrs) == 0 || len(in.Subject) <= 1) {
+			return nil
+		}
+		defer func() {
+			if r := recover(); r != nil {
+				res = "panic: " + fmt.Sprint(r)
+			}
+		}()
+		d := filesystem.NewFilesystemDatabase(filesystem.NewMapFs(fstest.MapFS{".": &fstest.MapFile{Mode: 0777 | fs.ModeDir}}))
+		if err := d.Open(); err != nil {
+			return "open: " + err.Error()
+		}
+		if err := d.AddProfile(config.CertificateProfile{Name: "p", SubjectAttributes: psa}); err != nil {
+			return "addProfile: " + err.Error()
+		}
+		subj2 := make(pkix.RDNSequence, len(subj))
+		copy(subj2, subj)
+		if err := d.PutConfig("a", config.CertificateContent{Alias: "a", Profile: "p", Subject: subj2}); err != nil {
+			return "putConfig: " + err.Error()
+		}
+		_, err := db.VerifValidateAndMerge(d, "a")
+		return err == nil
+	}()
+	return J{"attrs": view, "subjectTypes": types, "ok": ok, "subjectUnchanged": before == after, "okViaDb": viaDb}
 }
 
 func genValidate(yield func(any)) {
